@@ -352,7 +352,7 @@ Definition parse_header_line_c (line : bytes) : res header :=
   match index_byte ":"%char line with
   | None => Err
   | Some pos => Ok {| h_name := firstn pos line;
-                      h_val := HRaw (rv (trim_left (rv (trim_left (skipn (S pos) line))))) |}
+                      h_val := HRaw (rv (trim_left_go_r (rv (trim_left_go (skipn (S pos) line))))) |}
   end.
 
 Fixpoint parse_headers_c (rl : line_reader) (fuel : nat) (st : rd) (acc : list header)
